@@ -1,1 +1,736 @@
-fn main() {}
+//! C16 — serde values convert to GraphQL values and back without loss.
+//!
+//! Seam: `async_graphql_value::to_value` / `from_value`.
+//!
+//! Space: a macro-generated family of concrete serde types — 19 leaf types under every
+//! composition of 8 type constructors (Option, Vec, 2-tuple, BTreeMap<String,_>, newtype struct,
+//! tuple struct, named struct, externally tagged enum with newtype / unit / tuple / struct
+//! variants) to a fixed depth — plus hand-written extras (internally / adjacently tagged and
+//! untagged enums, flatten, skipped fields, renames, zero-field variants, enum map keys, arrays,
+//! `Result`). For every type the values are enumerated with `agv_engine::explore`: the exemplar
+//! (every container populated, every leaf at the first entry of its boundary menu) and every way
+//! of changing at most k positions of it (k = 2 quick, 3 thorough; class Dev(0)).
+//!
+//! Oracle: `from_value::<T>(to_value(&x)?)? == x`, equality taken on the `Debug` rendering so that
+//! floats are compared exactly (−0.0 ≠ 0.0, NaN = NaN).
+
+use agv_engine::explore::{explore, Chooser, ExploreCfg};
+use agv_engine::record::{Cx, Violation};
+use async_graphql_value::{from_value, to_value};
+use rayon::prelude::*;
+use serde::{de::DeserializeOwned, Deserialize, Serialize};
+use serde_json::json;
+use std::collections::BTreeMap;
+use std::fmt::Debug;
+use std::sync::atomic::{AtomicU64, Ordering};
+
+// ------------------------------------------------------------------------------------------
+// features of a generated value that pin where a known limitation applies
+
+#[derive(Default, Clone, Copy)]
+struct Feats(u8);
+const NONFINITE: u8 = 1;
+const SOME_OF_NULL: u8 = 2;
+const BEYOND64: u8 = 4;
+
+impl Feats {
+    fn set(&mut self, f: u8) {
+        self.0 |= f;
+    }
+    fn text(self) -> String {
+        let mut v = Vec::new();
+        if self.0 & BEYOND64 != 0 {
+            v.push("beyond-64-bit");
+        }
+        if self.0 & NONFINITE != 0 {
+            v.push("nonfinite-float");
+        }
+        if self.0 & SOME_OF_NULL != 0 {
+            v.push("some-of-null");
+        }
+        if v.is_empty() {
+            "-".to_string()
+        } else {
+            v.join("+")
+        }
+    }
+}
+
+trait Gen: Serialize + DeserializeOwned + Debug + 'static {
+    fn name() -> String;
+    /// The leaf type at the bottom of the composition (or the extra's own name).
+    fn leaf() -> &'static str;
+    fn gen(ch: &mut Chooser, path: &str, f: &mut Feats) -> Self;
+    /// Does the value serialize to GraphQL `null` (None, (), unit struct, non-finite float, wrappers of those)?
+    fn nullish(&self) -> bool {
+        false
+    }
+}
+
+// ------------------------------------------------------------------------------------------
+// leaves
+
+macro_rules! leaf {
+    ($t:ty, $name:expr, [$($v:expr),* $(,)?]) => {
+        impl Gen for $t {
+            fn name() -> String { $name.to_string() }
+            fn leaf() -> &'static str { $name }
+            fn gen(ch: &mut Chooser, path: &str, _f: &mut Feats) -> Self {
+                let menu: Vec<$t> = vec![$($v),*];
+                let i = ch.dev(0, &format!("{path}:{}", $name), menu.len());
+                menu.into_iter().nth(i).unwrap()
+            }
+        }
+    };
+}
+
+leaf!(bool, "bool", [false, true]);
+leaf!(i8, "i8", [0, -1, 1, i8::MIN, i8::MAX]);
+leaf!(i16, "i16", [0, -1, 1, i16::MIN, i16::MAX]);
+leaf!(i32, "i32", [0, -1, 1, i32::MIN, i32::MAX]);
+leaf!(i64, "i64", [0, -1, 1, i64::MIN, i64::MAX, i32::MIN as i64 - 1, (1 << 53) + 1]);
+leaf!(u8, "u8", [0, 1, u8::MAX]);
+leaf!(u16, "u16", [0, 1, u16::MAX]);
+leaf!(u32, "u32", [0, 1, u32::MAX]);
+leaf!(u64, "u64", [0, 1, u64::MAX, i64::MAX as u64 + 1, (1 << 53) + 1]);
+leaf!(char, "char", ['a', '\0', '"', '\\', '\n', 'é', '\u{ffff}', '😀']);
+leaf!(String, "String", [String::new(), "a".into(), "\"\\\n\u{0}".into(), "é😀".into(), "$var".into(), "null".into(), "1".into()]);
+leaf!(Ue, "unit_enum", [Ue::A, Ue::B]);
+
+impl Gen for i128 {
+    fn name() -> String {
+        "i128".into()
+    }
+    fn leaf() -> &'static str {
+        "i128"
+    }
+    fn gen(ch: &mut Chooser, path: &str, f: &mut Feats) -> Self {
+        let menu = [0, -1, 1, i64::MIN as i128, u64::MAX as i128, u64::MAX as i128 + 1, i64::MIN as i128 - 1, i128::MIN, i128::MAX];
+        let x = menu[ch.dev(0, &format!("{path}:i128"), menu.len())];
+        if x > u64::MAX as i128 || x < i64::MIN as i128 {
+            f.set(BEYOND64);
+        }
+        x
+    }
+}
+impl Gen for u128 {
+    fn name() -> String {
+        "u128".into()
+    }
+    fn leaf() -> &'static str {
+        "u128"
+    }
+    fn gen(ch: &mut Chooser, path: &str, f: &mut Feats) -> Self {
+        let menu = [0, 1, u64::MAX as u128, u64::MAX as u128 + 1, u128::MAX];
+        let x = menu[ch.dev(0, &format!("{path}:u128"), menu.len())];
+        if x > u64::MAX as u128 {
+            f.set(BEYOND64);
+        }
+        x
+    }
+}
+impl Gen for f32 {
+    fn name() -> String {
+        "f32".into()
+    }
+    fn leaf() -> &'static str {
+        "f32"
+    }
+    fn gen(ch: &mut Chooser, path: &str, f: &mut Feats) -> Self {
+        let menu = [0.0, -0.0, 1.0, -1.5, 0.1, f32::MIN_POSITIVE, f32::from_bits(1), f32::MAX, f32::MIN, f32::EPSILON, 16777216.0, f32::INFINITY, f32::NEG_INFINITY, f32::NAN];
+        let x = menu[ch.dev(0, &format!("{path}:f32"), menu.len())];
+        if !x.is_finite() {
+            f.set(NONFINITE);
+        }
+        x
+    }
+    fn nullish(&self) -> bool {
+        !self.is_finite()
+    }
+}
+impl Gen for f64 {
+    fn name() -> String {
+        "f64".into()
+    }
+    fn leaf() -> &'static str {
+        "f64"
+    }
+    fn gen(ch: &mut Chooser, path: &str, f: &mut Feats) -> Self {
+        let menu = [0.0, -0.0, 1.0, -1.5, 0.1, 1e-7, 1e21, 5e-324, f64::MIN_POSITIVE, f64::MAX, f64::MIN, 9007199254740993.0, 91625968981.33333, f64::INFINITY, f64::NEG_INFINITY, f64::NAN];
+        let x = menu[ch.dev(0, &format!("{path}:f64"), menu.len())];
+        if !x.is_finite() {
+            f.set(NONFINITE);
+        }
+        x
+    }
+    fn nullish(&self) -> bool {
+        !self.is_finite()
+    }
+}
+impl Gen for () {
+    fn name() -> String {
+        "()".into()
+    }
+    fn leaf() -> &'static str {
+        "unit"
+    }
+    fn gen(_: &mut Chooser, _: &str, _: &mut Feats) -> Self {}
+    fn nullish(&self) -> bool {
+        true
+    }
+}
+
+#[derive(Serialize, Deserialize, Debug, PartialEq)]
+struct Unit;
+impl Gen for Unit {
+    fn name() -> String {
+        "Unit".into()
+    }
+    fn leaf() -> &'static str {
+        "unit_struct"
+    }
+    fn gen(_: &mut Chooser, _: &str, _: &mut Feats) -> Self {
+        Unit
+    }
+    fn nullish(&self) -> bool {
+        true
+    }
+}
+
+#[derive(Serialize, Deserialize, Debug, PartialEq, Eq, PartialOrd, Ord, Clone, Copy)]
+enum Ue {
+    A,
+    B,
+}
+
+/// serde *bytes* (serialize_bytes / deserialize_byte_buf), like serde_bytes::ByteBuf.
+#[derive(Debug, PartialEq)]
+struct Bytes(Vec<u8>);
+impl Serialize for Bytes {
+    fn serialize<S: serde::Serializer>(&self, s: S) -> Result<S::Ok, S::Error> {
+        s.serialize_bytes(&self.0)
+    }
+}
+impl<'de> Deserialize<'de> for Bytes {
+    fn deserialize<D: serde::Deserializer<'de>>(d: D) -> Result<Self, D::Error> {
+        struct V;
+        impl<'de> serde::de::Visitor<'de> for V {
+            type Value = Bytes;
+            fn expecting(&self, f: &mut std::fmt::Formatter) -> std::fmt::Result {
+                f.write_str("bytes")
+            }
+            fn visit_bytes<E: serde::de::Error>(self, v: &[u8]) -> Result<Bytes, E> {
+                Ok(Bytes(v.to_vec()))
+            }
+            fn visit_byte_buf<E: serde::de::Error>(self, v: Vec<u8>) -> Result<Bytes, E> {
+                Ok(Bytes(v))
+            }
+        }
+        d.deserialize_byte_buf(V)
+    }
+}
+leaf!(Bytes, "bytes", [Bytes(vec![]), Bytes(vec![0]), Bytes(vec![255, 0, 127])]);
+
+// ------------------------------------------------------------------------------------------
+// constructors
+
+type Opt<T> = Option<T>;
+type VecT<T> = Vec<T>;
+type Pair<T> = (T, T);
+type Map<T> = BTreeMap<String, T>;
+
+#[derive(Serialize, Deserialize, Debug, PartialEq)]
+struct NewT<T>(T);
+#[derive(Serialize, Deserialize, Debug, PartialEq)]
+struct TupS<T>(T, bool);
+#[derive(Serialize, Deserialize, Debug, PartialEq)]
+struct Named<T> {
+    a: T,
+    b: u8,
+}
+#[derive(Serialize, Deserialize, Debug, PartialEq)]
+enum En<T> {
+    N(T),
+    U,
+    T(T, u8),
+    S { x: T, y: bool },
+}
+
+impl<T: Gen> Gen for Option<T> {
+    fn name() -> String {
+        format!("Option<{}>", T::name())
+    }
+    fn leaf() -> &'static str {
+        T::leaf()
+    }
+    fn gen(ch: &mut Chooser, path: &str, f: &mut Feats) -> Self {
+        if ch.dev(0, &format!("{path}/Option"), 2) == 1 {
+            None
+        } else {
+            let x = T::gen(ch, &format!("{path}/Some"), f);
+            if x.nullish() {
+                f.set(SOME_OF_NULL);
+            }
+            Some(x)
+        }
+    }
+    fn nullish(&self) -> bool {
+        match self {
+            None => true,
+            Some(x) => x.nullish(),
+        }
+    }
+}
+impl<T: Gen> Gen for Vec<T> {
+    fn name() -> String {
+        format!("Vec<{}>", T::name())
+    }
+    fn leaf() -> &'static str {
+        T::leaf()
+    }
+    fn gen(ch: &mut Chooser, path: &str, f: &mut Feats) -> Self {
+        let len = [1, 0, 2][ch.dev(0, &format!("{path}/Vec.len"), 3)];
+        (0..len).map(|i| T::gen(ch, &format!("{path}/[{i}]"), f)).collect()
+    }
+}
+impl<T: Gen> Gen for (T, T) {
+    fn name() -> String {
+        format!("({0}, {0})", T::name())
+    }
+    fn leaf() -> &'static str {
+        T::leaf()
+    }
+    fn gen(ch: &mut Chooser, path: &str, f: &mut Feats) -> Self {
+        let a = T::gen(ch, &format!("{path}/.0"), f);
+        let b = T::gen(ch, &format!("{path}/.1"), f);
+        (a, b)
+    }
+}
+impl<T: Gen> Gen for BTreeMap<String, T> {
+    fn name() -> String {
+        format!("BTreeMap<String, {}>", T::name())
+    }
+    fn leaf() -> &'static str {
+        T::leaf()
+    }
+    fn gen(ch: &mut Chooser, path: &str, f: &mut Feats) -> Self {
+        let keys: &[&str] = [&["a"][..], &[][..], &["a", "é\"\n"][..], &[""][..], &["$var", "0"][..]][ch.dev(0, &format!("{path}/Map.keys"), 5)];
+        keys.iter().enumerate().map(|(i, k)| (k.to_string(), T::gen(ch, &format!("{path}/{{{i}}}"), f))).collect()
+    }
+}
+impl<T: Gen> Gen for NewT<T> {
+    fn name() -> String {
+        format!("NewT<{}>", T::name())
+    }
+    fn leaf() -> &'static str {
+        T::leaf()
+    }
+    fn gen(ch: &mut Chooser, path: &str, f: &mut Feats) -> Self {
+        NewT(T::gen(ch, &format!("{path}/NewT"), f))
+    }
+    fn nullish(&self) -> bool {
+        self.0.nullish()
+    }
+}
+impl<T: Gen> Gen for TupS<T> {
+    fn name() -> String {
+        format!("TupS<{}>", T::name())
+    }
+    fn leaf() -> &'static str {
+        T::leaf()
+    }
+    fn gen(ch: &mut Chooser, path: &str, f: &mut Feats) -> Self {
+        let a = T::gen(ch, &format!("{path}/TupS.0"), f);
+        let b = bool::gen(ch, &format!("{path}/TupS.1"), f);
+        TupS(a, b)
+    }
+}
+impl<T: Gen> Gen for Named<T> {
+    fn name() -> String {
+        format!("Named<{}>", T::name())
+    }
+    fn leaf() -> &'static str {
+        T::leaf()
+    }
+    fn gen(ch: &mut Chooser, path: &str, f: &mut Feats) -> Self {
+        let a = T::gen(ch, &format!("{path}/Named.a"), f);
+        let b = u8::gen(ch, &format!("{path}/Named.b"), f);
+        Named { a, b }
+    }
+}
+impl<T: Gen> Gen for En<T> {
+    fn name() -> String {
+        format!("En<{}>", T::name())
+    }
+    fn leaf() -> &'static str {
+        T::leaf()
+    }
+    fn gen(ch: &mut Chooser, path: &str, f: &mut Feats) -> Self {
+        match ch.dev(0, &format!("{path}/En.variant"), 4) {
+            0 => En::N(T::gen(ch, &format!("{path}/En::N"), f)),
+            1 => En::U,
+            2 => {
+                let a = T::gen(ch, &format!("{path}/En::T.0"), f);
+                let b = u8::gen(ch, &format!("{path}/En::T.1"), f);
+                En::T(a, b)
+            }
+            _ => {
+                let x = T::gen(ch, &format!("{path}/En::S.x"), f);
+                let y = bool::gen(ch, &format!("{path}/En::S.y"), f);
+                En::S { x, y }
+            }
+        }
+    }
+}
+
+// ------------------------------------------------------------------------------------------
+// extras: other corners of the serde data model
+
+macro_rules! extra {
+    ($t:ty, $name:expr, |$ch:ident, $p:ident, $f:ident| $body:expr) => {
+        impl Gen for $t {
+            fn name() -> String {
+                $name.to_string()
+            }
+            fn leaf() -> &'static str {
+                $name
+            }
+            fn gen($ch: &mut Chooser, $p: &str, $f: &mut Feats) -> Self {
+                $body
+            }
+        }
+    };
+}
+
+#[derive(Serialize, Deserialize, Debug, PartialEq)]
+#[serde(tag = "t")]
+enum ITag {
+    A { x: u8 },
+    B { s: String, o: Option<i64> },
+    C,
+    D(Named<u8>),
+}
+extra!(ITag, "internally_tagged_enum", |ch, p, f| match ch.dev(0, &format!("{p}/ITag"), 4) {
+    0 => ITag::A { x: u8::gen(ch, &format!("{p}/A.x"), f) },
+    1 => ITag::B { s: String::gen(ch, &format!("{p}/B.s"), f), o: Option::<i64>::gen(ch, &format!("{p}/B.o"), f) },
+    2 => ITag::C,
+    _ => ITag::D(Named::<u8>::gen(ch, &format!("{p}/D"), f)),
+});
+
+#[derive(Serialize, Deserialize, Debug, PartialEq)]
+#[serde(tag = "t", content = "c")]
+enum ATag {
+    A(u64),
+    B { s: String },
+    C,
+    D(i8, String),
+    E(Option<bool>),
+}
+extra!(ATag, "adjacently_tagged_enum", |ch, p, f| match ch.dev(0, &format!("{p}/ATag"), 5) {
+    0 => ATag::A(u64::gen(ch, &format!("{p}/A"), f)),
+    1 => ATag::B { s: String::gen(ch, &format!("{p}/B.s"), f) },
+    2 => ATag::C,
+    3 => ATag::D(i8::gen(ch, &format!("{p}/D.0"), f), String::gen(ch, &format!("{p}/D.1"), f)),
+    _ => ATag::E(Option::<bool>::gen(ch, &format!("{p}/E"), f)),
+});
+
+#[derive(Serialize, Deserialize, Debug, PartialEq)]
+#[serde(untagged)]
+enum UTag {
+    N(i64),
+    S(String),
+    L(Vec<u8>),
+    M { k: bool },
+    P(u8, String),
+}
+extra!(UTag, "untagged_enum", |ch, p, f| match ch.dev(0, &format!("{p}/UTag"), 5) {
+    0 => UTag::N(i64::gen(ch, &format!("{p}/N"), f)),
+    1 => UTag::S(String::gen(ch, &format!("{p}/S"), f)),
+    2 => UTag::L(Vec::<u8>::gen(ch, &format!("{p}/L"), f)),
+    3 => UTag::M { k: bool::gen(ch, &format!("{p}/M.k"), f) },
+    _ => UTag::P(u8::gen(ch, &format!("{p}/P.0"), f), String::gen(ch, &format!("{p}/P.1"), f)),
+});
+
+#[derive(Serialize, Deserialize, Debug, PartialEq)]
+struct FlatInner {
+    x: String,
+    y: u8,
+}
+#[derive(Serialize, Deserialize, Debug, PartialEq)]
+struct Flat {
+    a: u8,
+    #[serde(flatten)]
+    inner: FlatInner,
+    #[serde(flatten)]
+    rest: BTreeMap<String, String>,
+}
+extra!(Flat, "struct_with_flatten", |ch, p, f| Flat {
+    a: u8::gen(ch, &format!("{p}/a"), f),
+    inner: FlatInner { x: String::gen(ch, &format!("{p}/inner.x"), f), y: 7 },
+    rest: [&[][..], &["z"][..], &["y", "z"][..]][ch.dev(0, &format!("{p}/rest"), 3)].iter().map(|k| (k.to_string(), String::gen(ch, &format!("{p}/rest.{k}"), f))).collect(),
+});
+
+#[derive(Serialize, Deserialize, Debug, PartialEq)]
+#[serde(rename_all = "camelCase")]
+struct Skip {
+    #[serde(rename = "type")]
+    ty: u8,
+    #[serde(default, skip_serializing_if = "Option::is_none")]
+    opt_field: Option<String>,
+    #[serde(default)]
+    list_field: Vec<i16>,
+}
+extra!(Skip, "struct_with_rename_skip_default", |ch, p, f| Skip {
+    ty: u8::gen(ch, &format!("{p}/ty"), f),
+    opt_field: Option::<String>::gen(ch, &format!("{p}/opt"), f),
+    list_field: Vec::<i16>::gen(ch, &format!("{p}/list"), f),
+});
+
+#[derive(Serialize, Deserialize, Debug, PartialEq)]
+enum ZeroV {
+    S0 {},
+    T0(),
+    N(()),
+    NU(Unit),
+}
+extra!(ZeroV, "enum_with_zero_field_variants", |ch, p, _f| match ch.dev(0, &format!("{p}/ZeroV"), 4) {
+    0 => ZeroV::S0 {},
+    1 => ZeroV::T0(),
+    2 => ZeroV::N(()),
+    _ => ZeroV::NU(Unit),
+});
+
+#[derive(Serialize, Deserialize, Debug, PartialEq)]
+struct TupS0();
+#[derive(Serialize, Deserialize, Debug, PartialEq)]
+struct Named0 {}
+#[derive(Serialize, Deserialize, Debug, PartialEq)]
+struct ZeroS(TupS0, Named0, Vec<TupS0>);
+extra!(ZeroS, "zero_field_structs", |ch, p, _f| ZeroS(TupS0(), Named0 {}, (0..ch.dev(0, &format!("{p}/n"), 3)).map(|_| TupS0()).collect()));
+
+#[derive(Serialize, Deserialize, Debug, PartialEq)]
+struct EnumKeyMap(BTreeMap<Ue, u8>);
+extra!(EnumKeyMap, "map_with_unit_variant_keys", |ch, p, f| EnumKeyMap(
+    [&[Ue::A][..], &[][..], &[Ue::A, Ue::B][..]][ch.dev(0, &format!("{p}/keys"), 3)].iter().map(|k| (*k, u8::gen(ch, &format!("{p}/{k:?}"), f))).collect()
+));
+
+#[derive(Serialize, Deserialize, Debug, PartialEq)]
+struct Mixed(u8, String, Option<bool>, (i8, i8), [u16; 3], Result<u8, String>, Box<i32>);
+extra!(Mixed, "wide_tuple_array_result_box", |ch, p, f| Mixed(
+    u8::gen(ch, &format!("{p}/0"), f),
+    String::gen(ch, &format!("{p}/1"), f),
+    Option::<bool>::gen(ch, &format!("{p}/2"), f),
+    <(i8, i8)>::gen(ch, &format!("{p}/3"), f),
+    [u16::gen(ch, &format!("{p}/4.0"), f), u16::gen(ch, &format!("{p}/4.1"), f), u16::gen(ch, &format!("{p}/4.2"), f)],
+    if ch.dev(0, &format!("{p}/5"), 2) == 0 { Ok(u8::gen(ch, &format!("{p}/5.ok"), f)) } else { Err(String::gen(ch, &format!("{p}/5.err"), f)) },
+    Box::new(i32::gen(ch, &format!("{p}/6"), f)),
+));
+
+// ------------------------------------------------------------------------------------------
+// one type: enumerate, round-trip, judge
+
+enum Obs {
+    ToPanic(String),
+    ToErr(String),
+    FromPanic { value: String, msg: String },
+    FromErr { value: String, msg: String },
+    Back { value: String, back: String, null: bool },
+}
+
+fn trip<T: Gen>(x: &T) -> Obs {
+    let v = match agv_engine::catch_quiet(|| to_value(x)) {
+        Err(p) => return Obs::ToPanic(p),
+        Ok(Err(e)) => return Obs::ToErr(e.to_string()),
+        Ok(Ok(v)) => v,
+    };
+    let value = v.to_string();
+    let null = matches!(v, async_graphql_value::ConstValue::Null);
+    match agv_engine::catch_quiet(|| from_value::<T>(v)) {
+        Err(p) => Obs::FromPanic { value, msg: p },
+        Ok(Err(e)) => Obs::FromErr { value, msg: e.to_string() },
+        Ok(Ok(y)) => Obs::Back { value, back: format!("{y:?}"), null },
+    }
+}
+
+struct TypeStats {
+    executions: u64,
+    nontrivial: u64,
+    capped: bool,
+}
+
+fn run_type<T: Gen>(cx: &Cx, budget: u32) -> TypeStats {
+    let name = T::name();
+    let leaf = T::leaf();
+    let nontrivial = AtomicU64::new(0);
+    let cfg = ExploreCfg { bounds: [budget, 0, 0, 0], max_execs: 2_000_000, parallel: true };
+    let st = explore(
+        &cfg,
+        &|ch: &mut Chooser| {
+            let mut f = Feats::default();
+            let x = T::gen(ch, "", &mut f);
+            (format!("{x:?}"), f, trip(&x))
+        },
+        &|ch: &Chooser, (shown, f, obs): (String, Feats, Obs)| {
+            let case = || json!({"type": name, "choices": ch.choices(), "value": shown});
+            let v = |class: &str, detail: String| {
+                cx.violation(Violation::new(class, detail, case()).key("leaf", leaf).key("feature", f.text()).key("type", name.clone()));
+            };
+            match obs {
+                Obs::ToPanic(p) => v("panic", format!("to_value({shown}) of type {name} panicked: {p}")),
+                Obs::FromPanic { value, msg } => v("panic", format!("from_value::<{name}>({value}) panicked: {msg}")),
+                Obs::ToErr(e) => v("to-value-fails", format!("to_value({shown}) of type {name} fails: {e}")),
+                Obs::FromErr { value, msg } => v("from-value-fails", format!("{name}: {shown} converts to {value}, which from_value rejects: {msg}")),
+                Obs::Back { value, back, null } => {
+                    if back != shown {
+                        v("roundtrip-differs", format!("{name}: {shown} converts to {value} and comes back as {back}"));
+                    } else {
+                        if !null {
+                            nontrivial.fetch_add(1, Ordering::Relaxed);
+                        }
+                        let h = agv_engine::h64(&(&name, &shown));
+                        cx.sample_with(h, || json!({"type": name, "value": shown, "graphql": value}));
+                    }
+                }
+            }
+        },
+    );
+    if let Some(d) = &st.diverged {
+        cx.machinery_error(format!("{name}: {d}"));
+    }
+    TypeStats { executions: st.executions, nontrivial: nontrivial.load(Ordering::Relaxed), capped: st.capped }
+}
+
+fn replay_type<T: Gen>(choices: &[u32]) -> String {
+    let mut ch = Chooser::from_choices(choices);
+    let mut f = Feats::default();
+    let x = T::gen(&mut ch, "", &mut f);
+    let shown = format!("{x:?}");
+    let head = format!("type {} value {shown} (features {})\n  ", T::name(), f.text());
+    head + &match trip(&x) {
+        Obs::ToPanic(p) => format!("to_value panicked: {p}"),
+        Obs::ToErr(e) => format!("to_value fails: {e}"),
+        Obs::FromPanic { value, msg } => format!("to_value = {value}; from_value panicked: {msg}"),
+        Obs::FromErr { value, msg } => format!("to_value = {value}; from_value fails: {msg}"),
+        Obs::Back { value, back, .. } => format!("to_value = {value}; from_value = {back}; {}", if back == shown { "equal: property holds on this case" } else { "NOT equal" }),
+    }
+}
+
+struct Entry {
+    name: String,
+    depth: u8,
+    thorough_only: bool,
+    run: fn(&Cx, u32) -> TypeStats,
+    replay: fn(&[u32]) -> String,
+}
+
+fn entry<T: Gen>(depth: u8, thorough_only: bool) -> Entry {
+    Entry { name: T::name(), depth, thorough_only, run: run_type::<T>, replay: replay_type::<T> }
+}
+
+macro_rules! ctor_each {
+    ($m:ident, $reg:ident, $d:expr, $th:expr, $t:ty) => {
+        $m!($reg, $d, $th, Opt<$t>);
+        $m!($reg, $d, $th, VecT<$t>);
+        $m!($reg, $d, $th, Pair<$t>);
+        $m!($reg, $d, $th, Map<$t>);
+        $m!($reg, $d, $th, NewT<$t>);
+        $m!($reg, $d, $th, TupS<$t>);
+        $m!($reg, $d, $th, Named<$t>);
+        $m!($reg, $d, $th, En<$t>);
+    };
+}
+macro_rules! d1 {
+    ($reg:ident, $d:expr, $th:expr, $t:ty) => {
+        $reg.push(entry::<$t>($d, $th));
+    };
+}
+/// all 8 types `C<t>`
+macro_rules! d2 {
+    ($reg:ident, $d:expr, $th:expr, $t:ty) => {
+        ctor_each!(d1, $reg, $d, $th, $t);
+    };
+}
+/// all 64 types `C<C<t>>`
+macro_rules! d3 {
+    ($reg:ident, $d:expr, $th:expr, $t:ty) => {
+        ctor_each!(d2, $reg, $d, $th, $t);
+    };
+}
+/// all 512 types `C<C<C<t>>>`
+macro_rules! d4 {
+    ($reg:ident, $d:expr, $th:expr, $t:ty) => {
+        ctor_each!(d3, $reg, $d, $th, $t);
+    };
+}
+
+macro_rules! each_leaf {
+    ($m:ident, $reg:ident, $d:expr, $th:expr, [$($t:ty),*]) => { $( $m!($reg, $d, $th, $t); )* };
+}
+
+fn registry() -> Vec<Entry> {
+    let mut r: Vec<Entry> = Vec::new();
+    // depth 1: the leaves; depth 2: every constructor over every leaf
+    each_leaf!(d1, r, 1, false, [bool, i8, i16, i32, i64, i128, u8, u16, u32, u64, u128, f32, f64, char, String, Bytes, (), Unit, Ue]);
+    each_leaf!(d2, r, 2, false, [bool, i8, i16, i32, i64, i128, u8, u16, u32, u64, u128, f32, f64, char, String, Bytes, (), Unit, Ue]);
+    // depth 3: every pair of constructors; quick over four leaves that behave differently
+    // (small int, string, null-valued unit, float), thorough over six more
+    each_leaf!(d3, r, 3, false, [u8, String, (), f64]);
+    each_leaf!(d3, r, 3, true, [i64, u64, bool, Bytes, Ue, Unit]);
+    // depth 4: every triple of constructors over one leaf (thorough)
+    each_leaf!(d4, r, 4, true, [u8]);
+    // extras
+    each_leaf!(d1, r, 0, false, [ITag, ATag, UTag, Flat, Skip, ZeroV, ZeroS, EnumKeyMap, Mixed]);
+    each_leaf!(d2, r, 0, false, [ITag, ATag, UTag, ZeroV]);
+    r
+}
+
+pub fn run(cx: &Cx) {
+    let thorough = !cx.quick();
+    let budget: u32 = if thorough { 3 } else { 2 };
+    cx.rule(
+        "case = (concrete Rust type, value). Types: 19 leaves (bool, i8–i128, u8–u128, f32, f64, char, String, bytes, (), unit struct, unit-only enum) under every \
+         composition of {Option, Vec, 2-tuple, BTreeMap<String,_>, newtype struct, tuple struct, named struct, enum with newtype/unit/tuple/struct variants}: all 8 \
+         over every leaf, all 64 pairs over 4 leaves (thorough: 10), thorough all 512 triples over u8; plus 13 extras (internally/adjacently tagged and untagged enums, \
+         flatten, rename/skip/default, zero-field variants and structs, unit-variant map keys, arrays/Result/Box). Values: the populated exemplar and every change of \
+         ≤ k positions (k=2 quick, 3 thorough) among: leaf boundary menus (min, max, 0, ±1, 2^53+1, −0.0, denormals, NaN, ±inf, NUL/quote/non-BMP strings), \
+         None, lengths 0/2, map key sets (incl. empty and non-identifier keys), every variant. Non-trivial = the value converted to a non-null GraphQL value and came \
+         back equal; distinct by construction (each admissible choice sequence runs once).",
+    );
+    cx.assume("equality is the Debug rendering (exact for floats: −0.0 ≠ 0.0, all NaNs equal); map keys are Strings or unit variants (the statement's 'string map keys')");
+
+    let reg = registry();
+    let selected: Vec<&Entry> = reg.iter().filter(|e| thorough || !e.thorough_only).collect();
+    let per: Vec<(u8, TypeStats)> = selected.par_iter().map(|e| (e.depth, (e.run)(cx, budget))).collect();
+    let mut by_depth: BTreeMap<u8, (u64, u64)> = BTreeMap::new();
+    let mut capped = false;
+    for (d, s) in &per {
+        cx.evals(s.executions);
+        cx.nontrivial_count(s.nontrivial);
+        let e = by_depth.entry(*d).or_default();
+        e.0 += 1;
+        e.1 += s.executions;
+        capped |= s.capped;
+    }
+    cx.extra("types", json!(selected.len()));
+    cx.extra("types_compiled_in", json!(reg.len()));
+    cx.extra("deviation_bound_completed", json!(budget));
+    cx.extra(
+        "by_depth",
+        json!(by_depth.iter().map(|(d, (n, e))| json!({"depth": if *d == 0 { "extras".to_string() } else { d.to_string() }, "types": n, "executions": e})).collect::<Vec<_>>()),
+    );
+    cx.extra("capped", json!(capped));
+    cx.exhaustive(!capped);
+}
+
+pub fn replay(case: &serde_json::Value) -> String {
+    let ty = case["type"].as_str().unwrap_or("");
+    let choices: Vec<u32> = case["choices"].as_array().map(|a| a.iter().filter_map(|x| x.as_u64().map(|x| x as u32)).collect()).unwrap_or_default();
+    match registry().into_iter().find(|e| e.name == ty) {
+        Some(e) => (e.replay)(&choices),
+        None => format!("no type named {ty} in the registry"),
+    }
+}
+
+fn main() {
+    agv_engine::driver::main("C16", "exploration", run, Some(replay))
+}
